@@ -118,11 +118,25 @@ pub struct Kernel {
     pub probe: fn(&Inp, &mut Out, bool) -> Trace,
 }
 
+/// Boundary values of the kernels' domains and codomains: a secret-dependent fast path or early
+/// exit typically triggers exactly on one of these (0, +-1, +-(q-1)/2, +-q, multiples of gamma2, ...).
+const SPECIAL: [i64; 30] = [
+    0, 1, -1, 2, -2, 4, -4,
+    4_190_208, -4_190_208, 4_190_209, -4_190_209, // +-(q-1)/2, +-(q+1)/2
+    8_380_416, -8_380_416, 8_380_417, -8_380_417, // +-(q-1), +-q
+    95_232, -95_232, 190_464, 261_888, -261_888, 523_776, // gamma2, 2*gamma2
+    4_096, -4_095, 8_191, 131_072, -131_071, 524_288, -524_287, // 2^12, 2^13-1, gamma1
+    16_760_834, -16_760_834, // +-2q
+];
+
 /// value classes: 0 uniform, 1 all lo, 2 all hi, 3 alternating lo/hi, 4 zero, 5 uniform with
-/// sprinkled extremes, 6 small magnitude
+/// sprinkled extremes and boundary values, 6 small magnitude, 7 sparse ternary (tau-like support),
+/// 8 one boundary value in an otherwise uniform polynomial
 fn fill(p: &mut Prng, class: u32, polys: &mut [[i32; 256]], lo: i64, hi: i64) {
     let span = (hi - lo + 1) as u64;
+    let special = |p: &mut Prng| -> i64 { (*p.pick(&SPECIAL)).clamp(lo, hi) };
     for (pi, poly) in polys.iter_mut().enumerate() {
+        let one_pos = p.usize_below(256);
         for (i, c) in poly.iter_mut().enumerate() {
             *c = match class {
                 1 => lo,
@@ -132,9 +146,12 @@ fn fill(p: &mut Prng, class: u32, polys: &mut [[i32; 256]], lo: i64, hi: i64) {
                 5 => match p.below(8) {
                     0 => lo,
                     1 => hi,
+                    2 | 3 => special(p),
                     _ => lo + p.below(span) as i64,
                 },
                 6 => (p.below(9) as i64 - 4).clamp(lo, hi),
+                7 => if p.below(5) == 0 { (p.below(3) as i64 - 1).clamp(lo, hi) } else { 0i64.clamp(lo, hi) },
+                8 => if i == one_pos { special(p) } else { lo + p.below(span) as i64 },
                 _ => lo + p.below(span) as i64,
             } as i32;
         }
@@ -235,7 +252,7 @@ decomp_kernels!(p_decompose_65, p_high_bits_65, p_low_bits_65, p_make_hint_65, G
 fn g_hint(p: &mut Prng, class: u32, inp: &mut Inp) {
     // call-site shape: z = Q - ct0 (no reduce) in (0, 2Q), r partially reduced in (-Q, Q)
     fill(p, class, &mut inp.polys[..1], -(Q as i64 - 1), Q as i64 - 1);
-    fill(p, if class == 0 { 0 } else { (class + 1) % 6 }, &mut inp.polys_b[..1], 1, 2 * (Q as i64) - 1);
+    fill(p, if class == 0 { 0 } else { (class + 1) % 9 }, &mut inp.polys_b[..1], 0, 2 * (Q as i64));
 }
 
 // -- packing of secret polynomials
@@ -263,6 +280,7 @@ macro_rules! ntt_kernels {
         probe!($pa, |inp, out| { *sub_mut::<$n>(&mut out.polys) = vh::add_vector_ntt::<$n>(sub::<$n>(&inp.polys), sub::<$n>(&inp.polys_b)); });
     };
 }
+ntt_kernels!(p_ntt1, p_inv_ntt1, p_addv1, 1);
 ntt_kernels!(p_ntt4, p_inv_ntt4, p_addv4, 4);
 ntt_kernels!(p_ntt5, p_inv_ntt5, p_addv5, 5);
 ntt_kernels!(p_ntt6, p_inv_ntt6, p_addv6, 6);
@@ -349,6 +367,7 @@ pub fn kernels() -> Vec<Kernel> {
         k!("bit_pack(t0)", P, 1, g_bit_pack_t0, p_bit_pack_t0),
         k!("bit_pack(z,gamma1=2^17)", P, 1, g_bit_pack_z17, p_bit_pack_z17),
         k!("bit_pack(z,gamma1=2^19)", P, 1, g_bit_pack_z19, p_bit_pack_z19),
+        k!("ntt<1>/challenge-like", P, 1, g_ntt_eta, p_ntt1),
         k!("ntt<4>/eta", P, 4, g_ntt_eta, p_ntt4),
         k!("ntt<4>/gamma1", P, 4, g_ntt_g1, p_ntt4),
         k!("ntt<5>/gamma1", P, 5, g_ntt_g1, p_ntt5),
